@@ -15,6 +15,14 @@ CHECKS = {
         text="RouterMachine.tla: insert / remove / batch_remove / apply_change_set / clone-then-change-set (update_existing_router) / cache on two router handles. TLC explores all histories up to the bound (every operation kind into every reachable abstract state) with IncrementalEqualsRebuild, UniqueIds and clone Isolation, plus seeded random long histories (-simulate). Each history is replayed on real routers; after every operation every live handle is probed and compared by TLC with Sat over the model's live set, with a router rebuilt from scratch (real vs real), len, get_route_by_id and remove's return value.",
         note="Bounded: pool of 5 (quick) / 8 (thorough) rules incl. two versions per id and host/path patterns that force tree splits and collapses, <=3/4 operations exhaustively, 10-operation random histories. One genuine defect repaired (remove returned None for dynamic-host rules).",
         ref="DESIGN.md section 6, C02"),
+    "C03": dict(
+        text="BodyFilter.tla models the streaming chain code-shaped (per chunk a fresh context-free tokenizer run over held bytes + chunk, the hold rules for partial tags / lone '<' / text containing '<', truncated markup declarations, raw-text context, the enter-leave-position machine of the three visitors, element buffers, selector-driven re-tokenisation, text stages, do_filter's early break, do_end, end()). TLC explores every chunk schedule (<=2 chunks quick, <=3 thorough, empty chunks included) of every (document, filter list) of the case set and checks ChunkInvariant. Every behaviour is replayed on the real FilterBodyAction whole and chunked, plus per case every single byte cut, one byte at a time and interleaved empty chunks; TLC judges real chunked = real whole. The model predicts the real bytes exactly on all 148 580 thorough behaviours (zero drift), which is what allows a deviation to be accepted as a known finding only when the model reproduces the observed bytes.",
+        note="Bounded to the 22 documents x 20 filter lists of BodyCases.tla (well-formed trees, attributes containing '>', void / self-closing / upper-case tags, entities, multi-byte characters, comments and raw-text elements with embedded markup, bare '<', stray / omitted end tags, truncated documents). Known findings D1/D2 (cut inside a markup declaration / raw-text element) are genuine and not repaired; D3 (cut inside a multi-byte character) was repaired.",
+        ref="DESIGN.md section 6, C03"),
+    "C04": dict(
+        text="On the same behaviours TLC checks Conservation (insert-only lists: output minus values = document, unit by unit, no loss / duplication / reordering), PassThroughWhenInert and RunChunkedAgrees on the model; on the recorded real outputs (whole and chunked, malformed / truncated / invalid-UTF-8 documents included) that stripping the values gives back the document bytes, that inert lists pass through, and that outputs of replace lists are exactly the model's.",
+        note="For replace lists the verdict goes through the code-shaped model (real = model, and the model's outputs are whole-span substitutions by construction of the visitors). Error path: one known finding (held bytes lost when an invalid byte arrives in a later chunk); the end() ordering defect was repaired.",
+        ref="DESIGN.md section 6, C04"),
     "C05": dict(
         text="TLC checks Action.tla exhaustively over rule pools (<=2 rules x status/conditions/exclusion/log/reset/stop, filters/target/sampling x override; <=3 rules on a reduced pool in the thorough tier): the code-shaped fold, merge and queries imply the declarative window semantics in every state. Every enumerated behaviour (rule set x override x query script) is replayed through real Rule JSON -> Router -> Action::from_routes_rule -> get_status_code / filter_headers / create_filter_body / should_log_request and the recorded answers and applied-rule sets are judged by TLC against the declarative layer.",
         note="Bounded to the pools and scripts of MC_Action.tla; response codes 0/200/404/500; applied-rule lists compared as sets; sampling only at rates none/0/100 (as the property states). Trusted: TLC, serde_json recorder.",
@@ -35,6 +43,10 @@ CHECKS = {
         text="RadixTree.tla has cache(limit, level) as an action that only sets compiled flags under the level-by-level budget algorithm; TLC interleaves it with all updates (limits 0-3, levels 0-2 and none) and checks CacheTransparent/CacheBudget. On the real code a twin tree that is never cached receives the same history; TLC compares find / len / remove results of the two after every operation (real vs real) and, as drift, compiled flags and the returned budget with the model.",
         note="Tree level (RegexTreeMap) in this check; router-level cache (Router::cache, Route::compile, captures, traces) is covered by the router traces. Bounded as C08.",
         ref="DESIGN.md section 6, C12"),
+    "C15": dict(
+        text="RefEdit.tla: declarative edit of a well-formed lexeme sequence (targets through the ancestor chain, value before the end tag / after the start tag / instead of the whole span for every sibling occurrence incl. void and self-closing, selector rule, composition left to right). TLC checks RunWhole = RefOut on every case inside the domain of the property; the real single-chunk output is compared by TLC with the rendering of RefOut.",
+        note="Domain exactly as the property states (each path element once and child of the previous, append/prepend targets unique and non-void, replace targets possibly repeated siblings). Bounded to BodyCases.tla.",
+        ref="DESIGN.md section 6, C15"),
     "C17": dict(
         text="For every (router state, probe request) of the C01 and C02 universes (so also after removals, change-sets and cache warm-ups) the harness records the ids found in trace_request's tree, the priority of get_trace's final route and of get_route; TLC checks set(trace routes) = set(match) — the match itself being judged against Sat — and equal priorities.",
         note="The per-step action trace (TraceAction) part of the property is exercised through the analysis checks (explain) — see C19. Bounded as C01/C02.",
